@@ -14,6 +14,10 @@ def regroup(rng, comp):
         inner = [[c / k, at] for c, at in items[:cut]]
         # split the first atom over two places as well
         c0, at0 = items[cut]
+        if len(inner) >= 2 and rng.random() < 0.5:
+            # a group inside a group, both with multipliers other than 1: k * (c_1 a_1 + m * (rest / m))
+            m = rng.choice([3, 0.5, 2])
+            inner = [inner[0], [m, [[c / m, at] for c, at in inner[1:]]]]
         return [[k, inner], [c0 * 0.25, at0]] + items[cut + 1:] + [[c0 * 0.75, at0]]
     c0, at0 = items[0]
     return [[2, [[c0 / 4.0, at0]]], [c0 / 2.0, at0]]
@@ -27,6 +31,11 @@ def tasks(ctx, quick):
     def add(t):
         t["id"] = "t%d" % len(items)
         items.append(t)
+    # the very first calculation of each of the 32 fresh interpreters involves natural Lu (whose energy table is mixed
+    # from its isotopes) before any other energy-dependent atom has been touched
+    for i in range(32):
+        add({"kind": "scat", "compound": ["dict", [[71, 0, 0, 1], [8, 0, 0, rng.choice([1, 3])]]], "density": 9.0,
+             "wavelength": rng.choice([0.3, 0.52, 1.0])})
     n = 500 if quick else 6000
     for i in range(n):
         comp = gen.compound(nmin=2, nmax=5)
@@ -48,7 +57,7 @@ def tasks(ctx, quick):
             rng.shuffle(sh)
             add(dict(base, rel="permute", variant=["seq", [[c, [z, a, q]] for z, a, q, c in sh]]))
         elif m == 4:
-            add(dict(base, rel="energy"))
+            add(dict(base, rel="energy", both=(i % 12 == 4)))
         else:
             if i % 12 == 5:
                 ws = sorted(rng.sample([1, 2, 3, 4, 5, 6, 8, 12, 20], rng.randint(1, 5)))     # an integer-typed vector
